@@ -411,7 +411,7 @@ func c17GenMulti(rng *rand.Rand, tier string, emit func(string)) {
 	for _, spec := range []string{"gz", "bz2", "xz", "zst", "zst~nocrc", "xz~nocrc", "xz~crc32"} {
 		sp, _ := c17ParseSpec(spec)
 		z := c17Build(sp, 2).z
-		if thorough {
+		if thorough && spec != "xz~crc32" {
 			for b := 0; b < len(z)*8; b++ {
 				emit(fmt.Sprintf("file %s nrec=2 flip=%d n=0 err=eof", spec, b))
 			}
@@ -548,7 +548,7 @@ func c17GenMulti(rng *rand.Rand, tier string, emit func(string)) {
 		codecs := []string{"gz"}
 		nrec := 1
 		if thorough {
-			codecs, nrec = []string{"gz", "bz2", "xz", "zst"}, 3
+			codecs, nrec = []string{"gz", "bz2", "xz", "zst"}, 2
 		}
 		for _, codec := range codecs {
 			z := c17Build(c17Spec{codec: codec, format: format}, nrec).z
@@ -648,7 +648,8 @@ func c17RawProne(line string) bool {
 	return false
 }
 
-// c17Partition: (seed mod 4, 4) in the thorough tier when the seed is on the command line of the harness, else (0, 1)
+// c17Partition: (seed mod 8, 8) in the thorough tier when the seed is on the command line of the harness, else (0, 1);
+// 8 = `thorough_seeds` of lib/cfg/C17.py (the check runs the seeds 1000*seed + 0..7)
 func c17Partition(tier string) (int, int) {
 	if tier != "thorough" {
 		return 0, 1
@@ -656,12 +657,12 @@ func c17Partition(tier string) (int, int) {
 	for i, a := range os.Args {
 		if (a == "-seed" || a == "--seed") && i+1 < len(os.Args) {
 			if v, err := strconv.Atoi(os.Args[i+1]); err == nil && v >= 0 {
-				return v % 4, 4
+				return v % 8, 8
 			}
 		}
 		if strings.HasPrefix(a, "-seed=") || strings.HasPrefix(a, "--seed=") {
 			if v, err := strconv.Atoi(a[strings.IndexByte(a, '=')+1:]); err == nil && v >= 0 {
-				return v % 4, 4
+				return v % 8, 8
 			}
 		}
 	}
